@@ -6,8 +6,9 @@ C_None  == {NoCount}
 C_Two   == {NoCount, IntCount(2)}
 C_Small == {NoCount, IntCount(2), IntCount(3)}
 C_Wide  == {NoCount, IntCount(2), IntCount(10), IntCount(12), IntCount(100),
-            DecCount(2, 5, 1), DecCount(0, 5, 1), DecCount(1, 25, 2), DecCount(2, 3, 1), DecCount(0, 125, 3)}
-C_Dec   == {NoCount, IntCount(3), DecCount(2, 5, 1), DecCount(0, 25, 2)}
+            DecCount(2, 5, 1), DecCount(0, 5, 1), DecCount(1, 25, 2), DecCount(2, 3, 1), DecCount(0, 125, 3),
+            DecCount(12, 5, 1), DecCount(10, 25, 2)}
+C_Dec   == {NoCount, IntCount(3), DecCount(2, 5, 1), DecCount(0, 25, 2), DecCount(12, 5, 1)}
 G_Two   == {IntCount(2)}
 
 E_All == 1..118
